@@ -285,3 +285,118 @@ Lemma path_failure_leaves_set_before_fix :
   exists d f k, fst (step d false None (Load f k FkPath)) <> None
              /\ snd (step d false (fst (step d false None (Load f k FkPath))) (Load f k FkNone)) = ErrAlready.
 Proof. exists (Node []), (Node []), (Node []). cbn. split; [discriminate|reflexivity]. Qed.
+
+(* ---------- the generalised machine: validators and frozen flags as data ---------- *)
+Lemma run_validators_repaired pf s c :
+  run_validators repaired_stages pf s c =
+    match s with
+    | Some _ => (s, ErrAlready)
+    | None => if pf then (None, ErrPath) else (Some c, OkUnit)
+    end.
+Proof. destruct s, pf; reflexivity. Qed.
+
+Lemma run_validators_found pf s c :
+  run_validators found_stages pf s c =
+    match s with
+    | Some _ => (s, ErrAlready)
+    | None => if pf then (Some c, ErrPath) else (Some c, OkUnit)
+    end.
+Proof. destruct s, pf; reflexivity. Qed.
+
+(* with all owners frozen and the repaired / as-found stage list the general machine IS the machine the
+   property theorems are about *)
+Lemma step_g_is_step d (late : bool) (vs : list vstage) s o :
+  vs = (if late then repaired_stages else found_stages) ->
+  step_g d vs (fun _ => true) s o = step d late s (forget o).
+Proof.
+  intros ->. destruct o as [f k fk| | |p|p v]; cbn [step_g step forget]; try reflexivity.
+  all: try (destruct fk; try reflexivity; destruct late;
+            rewrite ?run_validators_repaired, ?run_validators_found; destruct s; reflexivity).
+  all: try (destruct s; reflexivity).
+Qed.
+
+Lemma run_g_is_run d (late : bool) vs : vs = (if late then repaired_stages else found_stages) ->
+  forall ops s, run_g d vs (fun _ => true) s ops = run d late s (map forget ops).
+Proof.
+  intros Hvs. induction ops as [|o r IH]; intros s; cbn [run_g run map]; auto.
+  rewrite (step_g_is_step d late vs s o Hvs). destruct (step d late s (forget o)) as [s1 x].
+  now rewrite IH.
+Qed.
+
+(* the general law: when no raising stage follows a registration, a failing load leaves the state as it was,
+   and in particular an unconfigured system stays unconfigured — for EVERY validator list *)
+Lemma failing_validators_keep_state : forall vs s c s' e,
+  nothing_fails_after_register vs false = true ->
+  run_validators vs true s c = (s', e) -> e <> OkUnit -> s' = s.
+Proof.
+  induction vs as [|v r IH]; intros s c s' e Hn Hr He; cbn in *.
+  - inversion Hr; subst. contradiction.
+  - destruct v.
+    + destruct s; [inversion Hr; auto|]. eapply IH; eauto.
+    + inversion Hr; auto.
+    + (* VRegister: nothing can fail afterwards, so the run cannot end in an error *)
+      exfalso. clear IH. revert Hn Hr He. generalize (Some c) as s0. clear s.
+      induction r as [|v r IHr]; intros s0 Hn Hr He; cbn in *.
+      * inversion Hr; subst. contradiction.
+      * destruct v; cbn in Hn; try discriminate. eapply IHr; eauto.
+Qed.
+
+Lemma failed_load_leaves_unset_general d vs frozen f k fk :
+  nothing_fails_after_register vs false = true ->
+  snd (step_g d vs frozen None (LoadG f k fk)) <> OkUnit ->
+  fst (step_g d vs frozen None (LoadG f k fk)) = None.
+Proof.
+  intros Hn He. destruct fk; cbn [step_g] in *; try reflexivity.
+  - destruct (run_validators vs false None (effective d f k)) as [s1 e1] eqn:E. cbn in *.
+    (* without a path failure the only error a run from the unset state can end in would have to come
+       from a stage after a registration, which the side condition excludes *)
+    revert E He. generalize (effective d f k) as c. intros c E He.
+    assert (G : forall vs0 s0 s2 e2, nothing_fails_after_register vs0 (match s0 with Some _ => true | None => false end) = true ->
+              run_validators vs0 false s0 c = (s2, e2) -> e2 <> OkUnit -> False).
+    { clear. induction vs0 as [|v r IH]; intros s0 s2 e2 Hn Hr Hne; cbn in *.
+      - inversion Hr; subst; contradiction.
+      - destruct v; cbn in Hn.
+        + destruct s0; cbn in Hn; [discriminate|]. eapply (IH None); eauto.
+        + destruct s0; cbn in Hn; [discriminate|]. eapply (IH None); eauto.
+        + eapply (IH (Some c)); eauto. }
+    exfalso. eapply (G vs None); eauto.
+  - destruct (run_validators vs true None (effective d f k)) as [s1 e1] eqn:E. cbn in *.
+    eapply failing_validators_keep_state; eauto.
+Qed.
+
+Lemma repaired_stages_ok : nothing_fails_after_register repaired_stages false = true.
+Proof. reflexivity. Qed.
+Lemma found_stages_not_ok : nothing_fails_after_register found_stages false = false.
+Proof. reflexivity. Qed.
+
+(* frozen owners: a mutation is refused and changes nothing; an unfrozen owner really is mutable *)
+Lemma frozen_owner_refuses d vs frozen c p v :
+  frozen (owner p) = true -> step_g d vs frozen (Some c) (MutateG p v) = (Some c, ErrFrozen).
+Proof. intros H. cbn. now rewrite H. Qed.
+
+Definition quiet_g (o : opg) : bool := match o with LoadG _ _ _ | ResetG => false | _ => true end.
+
+Lemma all_frozen_config_immutable d vs frozen :
+  (forall p, frozen p = true) ->
+  forall ops s, forallb quiet_g ops = true -> fst (run_g d vs frozen s ops) = s.
+Proof.
+  intros Hf. induction ops as [|o r IH]; intros s H; cbn [run_g]; auto.
+  cbn in H. apply andb_true_iff in H as [Ho Hr].
+  destruct o as [f k fk| | |p|p v]; try discriminate; cbn [step_g];
+    destruct s as [c|]; rewrite ?Hf;
+    match goal with |- fst (let (_, _) := run_g ?d ?vs ?fz ?s ?r in _) = _ =>
+      specialize (IH s Hr); destruct (run_g d vs fz s r); cbn in *; auto end.
+Qed.
+
+Lemma unfrozen_section_is_mutable :
+  exists (d : tree) (frozen : list string -> bool) (c : tree) (p : list string) (v : Z),
+    frozen (owner p) = false /\
+    fst (step_g d repaired_stages frozen (Some c) (MutateG p v)) <> Some c /\
+    get p (match fst (step_g d repaired_stages frozen (Some c) (MutateG p v)) with Some t => t | None => c end)
+      = Some (Leaf v).
+Proof.
+  exists (Node []), (fun p => match p with ["emissions"%string] => false | _ => true end),
+         (Node [("emissions"%string, Node [("sox_enabled"%string, Leaf 1)])]),
+         ["emissions"%string; "sox_enabled"%string], 0%Z.
+  cbn. repeat split; try reflexivity. discriminate.
+Qed.
